@@ -31,6 +31,22 @@ func termArg(v Value) (*smt.Term, error) {
 }
 
 func (r *Run) nondet(st *State, name string, w int, stub bool) *smt.Term {
+	if r.ReplayVals != nil {
+		// concrete re-execution: the k-th draw gets the k-th recorded value
+		k := len(st.Nondets)
+		var val uint64
+		if k < len(r.ReplayVals) {
+			val = r.ReplayVals[k]
+		}
+		var t *smt.Term
+		if w == 0 {
+			t = smt.BoolC(val&1 == 1)
+		} else {
+			t = smt.BV(val, w)
+		}
+		st.Nondets = append(st.Nondets, Nondet{Name: name, T: t, Stub: stub})
+		return t
+	}
 	v := smt.Var(r.Eng.Fresh("nd_"+sanitize(name)), smt.Sort(w))
 	st.Nondets = append(st.Nondets, Nondet{Name: name, T: v, Stub: stub})
 	return v
@@ -234,6 +250,19 @@ func init() {
 	}
 	noop := func(r *Run, st *State, fn *ssa.Function, a []Value, pos token.Pos) ([]Value, error) {
 		return nil, nil
+	}
+	// syscall.Errno.Is only matches the os error classes (ErrPermission, ErrExist, ErrNotExist,
+	// ErrUnsupported); netpoll never asks for those, so it is false here
+	intrinsics["(syscall.Errno).Is"] = func(r *Run, st *State, fn *ssa.Function, a []Value, pos token.Pos) ([]Value, error) {
+		return []Value{smt.False}, nil
+	}
+	intrinsics["(syscall.Errno).Timeout"] = func(r *Run, st *State, fn *ssa.Function, a []Value, pos token.Pos) ([]Value, error) {
+		t, ok := a[0].(*smt.Term)
+		if !ok {
+			return []Value{smt.False}, nil
+		}
+		// EAGAIN (11), EWOULDBLOCK (11), ETIMEDOUT (110)
+		return []Value{smt.Or(smt.Eq(t, smt.BV(11, int(t.S))), smt.Eq(t, smt.BV(110, int(t.S))))}, nil
 	}
 	intrinsics["runtime.Gosched"] = noop
 	intrinsics["runtime.SetFinalizer"] = noop
@@ -640,7 +669,7 @@ func (r *Run) verifIntrinsic(st *State, fn *ssa.Function, a []Value, pos token.P
 			return []Value{smt.BV(uint64(p.ID), 64)}, true, nil
 		}
 		return nil, true, unknownf("verifObjID on %T", a[0])
-	case "verifScribblePool":
+	case "verifScribblePool", "verifFill":
 		return nil, true, nil
 	case "verifRopeNew":
 		n := uint64(0)
